@@ -549,6 +549,8 @@ class Executor:
         self.trace = False
         self.post_hooks = []      # [(compiled regex, fn(ctx, value) -> value | Fork)]
         self.nomerge = []         # [compiled regex]: callees executed path by path (no merging); each path returns separately
+        self.exit_split = None    # fn(state) -> hashable key: states reaching a function's exit with different keys are
+        #                           returned as separate paths instead of being merged
         from . import models
         models.install(self)
 
@@ -1373,6 +1375,14 @@ class Executor:
             self.call_depth -= 1
         if res is None:
             return None, None
+        if isinstance(res, list):
+            out = []
+            for r_ in res:
+                ret = r_.store.get(('L', fr.fid, 0), UNIT)
+                for k in [k for k in r_.store if k[0] == 'L' and k[1] == fr.fid]:
+                    del r_.store[k]
+                out.append((ret, r_))
+            return PATHS, out
         ret = res.store.get(('L', fr.fid, 0), UNIT)
         # free the frame
         for k in [k for k in res.store if k[0] == 'L' and k[1] == fr.fid]:
@@ -1446,6 +1456,23 @@ class Executor:
         while heap:
             k = heapq.heappop(heap)
             bb, ctx, states = pending.pop(k)
+            if not nomerge and self.exit_split is not None and len(states) > 1:
+                groups = {}
+                for s_ in states:
+                    groups.setdefault(self.exit_split(s_), []).append(s_)
+                if len(groups) > 1:
+                    if bb == EXIT:
+                        for members in groups.values():
+                            finals.append(merge_arrivals(members))
+                        final = finals
+                        continue
+                    # keep states with different keys apart from here on (own copy of the rest of the function)
+                    for j_, members in enumerate(groups.values()):
+                        base = ctx if ctx else ((0, 0, ()),)
+                        nctx = base[:-1] + ((base[-1][0], base[-1][1], base[-1][2] + (-(200 + j_),)),)
+                        for s_ in members:
+                            push(bb, nctx, s_)
+                    continue
             if nomerge and len(states) > 1:
                 # path-by-path mode: give every arrival its own copy of the node (distinct partition tag)
                 if bb == EXIT:
@@ -1489,11 +1516,10 @@ class Executor:
                 st2 = self.exec_call(fr, bb, term, st)
                 if isinstance(st2, list):
                     if term[4] is not None:
-                        if len(st2) > 1 and not ctx:
-                            raise Unsupported('path split requested outside any loop (states would be re-merged at once)')
+                        base_ = ctx if ctx else ((0, 0, ()),)      # pseudo element outside loops
                         for i_, s_i in enumerate(st2):
                             # keep the split paths apart for the rest of this loop iteration (fork marker in the tag)
-                            fctx = ctx[:-1] + ((ctx[-1][0], ctx[-1][1], ctx[-1][2] + (-(i_ + 2),)),) if len(st2) > 1 else ctx
+                            fctx = base_[:-1] + ((base_[-1][0], base_[-1][1], base_[-1][2] + (-(i_ + 2),)),) if len(st2) > 1 else ctx
                             goto(bb, fctx, term[4], s_i)
                 elif st2 and term[4] is not None:
                     goto(bb, ctx, term[4], st2)
